@@ -17,8 +17,11 @@ import (
 	"verifharness/internal/gen"
 )
 
-// R is the sphere radius the library documents (orb.EarthRadius, metres).
-const R = orb.EarthRadius
+// R is the sphere radius the library documents for its geo calculations (define.go: "matches
+// WGS84 Web Mercator (EPSG:3857)", 6378137 m). It is the harness's own constant, not
+// orb.EarthRadius, so that the oracle does not move with a change of the library's constant;
+// checkCase asserts that the two agree.
+const R = 6378137.0
 
 // Stated tolerances (see rule.txt / DESIGN.md C18).
 const (
@@ -109,6 +112,32 @@ func constructTol(v vec) float64 {
 	return tolMetres
 }
 
+// havTol is the stated tolerance of DistanceHaversine against the vector model for a model distance m.
+func havTol(m float64) float64 {
+	if m > rad(179)*R {
+		return tolHavAntip
+	}
+	return tolHavModel
+}
+
+// segmentSanity asserts, for one segment whose library distances are used as the yardstick of a
+// length clause, that Distance and DistanceHaversine are symmetric bit for bit and that the
+// haversine value agrees with the independent great-circle model.
+func segmentSanity(a, b orb.Point) (e, h float64, err error) {
+	e, h = geo.Distance(a, b), geo.DistanceHaversine(a, b)
+	eb, hb := geo.Distance(b, a), geo.DistanceHaversine(b, a)
+	if math.Float64bits(e) != math.Float64bits(eb) {
+		return e, h, fmt.Errorf("Distance not symmetric: d(%v,%v)=%v but reversed %v", a, b, e, eb)
+	}
+	if math.Float64bits(h) != math.Float64bits(hb) {
+		return e, h, fmt.Errorf("DistanceHaversine not symmetric: d(%v,%v)=%v but reversed %v", a, b, h, hb)
+	}
+	if m := modelDist(a, b); !(math.Abs(h-m) <= havTol(m)) {
+		return e, h, fmt.Errorf("DistanceHaversine(%v,%v) = %v, great-circle model %v", a, b, h, m)
+	}
+	return e, h, nil
+}
+
 // ---------------------------------------------------------------- pair
 
 func checkPair(p1, p2 orb.Point, nz *noiser) error {
@@ -136,14 +165,11 @@ func checkPair(p1, p2 orb.Point, nz *noiser) error {
 		return fmt.Errorf("Distance not symmetric: d(%v,%v)=%v but reversed %v", p1, p2, e12, e21)
 	}
 	m := modelDist(p1, p2)
-	tol := tolHavModel
-	if m > rad(179)*R {
-		tol = tolHavAntip
-	}
+	tol := havTol(m)
 	if math.Abs(h12-m) > tol {
 		return fmt.Errorf("DistanceHaversine(%v,%v) = %v, great-circle model %v (diff %g > %g m)", p1, p2, h12, m, h12-m, tol)
 	}
-	if h12 < 10000 && math.Abs(p1[1]) <= 80 && math.Abs(p2[1]) <= 80 {
+	if m < 10000 && math.Abs(p1[1]) <= 80 && math.Abs(p2[1]) <= 80 {
 		if d := math.Abs(e12 - h12); d > relEquirect*h12+absEquirect {
 			return fmt.Errorf("Distance(%v,%v) = %v but haversine %v: relative difference %g > 1e-5", p1, p2, e12, h12, d/h12)
 		}
@@ -158,6 +184,10 @@ func checkPair(p1, p2 orb.Point, nz *noiser) error {
 		d1 := geo.DistanceHaversine(p1, mid)
 		nz.call()
 		d2 := geo.DistanceHaversine(mid, p2)
+		// the library's haversine is the yardstick of this clause: assert it independently on the values used
+		if m1, m2 := modelDist(p1, mid), modelDist(mid, p2); !(math.Abs(d1-m1) <= havTol(m1)) || !(math.Abs(d2-m2) <= havTol(m2)) {
+			return fmt.Errorf("DistanceHaversine to the midpoint %v of (%v,%v): %v and %v, great-circle model %v and %v", mid, p1, p2, d1, d2, m1, m2)
+		}
 		if math.Abs(d1-d2) > tolMetres || math.Abs(d1-h12/2) > tolMetres || math.Abs(d2-h12/2) > tolMetres {
 			return fmt.Errorf("Midpoint(%v,%v) = %v: distances to the ends %v and %v, half the whole %v", p1, p2, mid, d1, d2, h12/2)
 		}
@@ -186,6 +216,9 @@ func checkDest(p orb.Point, bearing, d float64, nz *noiser) error {
 	tol := constructTol(md)
 	nz.call()
 	back := geo.DistanceHaversine(p, q)
+	if mb := modelDist(p, q); !(math.Abs(back-mb) <= havTol(mb)) {
+		return fmt.Errorf("DistanceHaversine(%v,%v) = %v, great-circle model %v", p, q, back, mb)
+	}
 	if !(math.Abs(back-d) <= tol) {
 		return fmt.Errorf("PointAtBearingAndDistance(%v,%v,%v) = %v lies at haversine distance %v (off by %g m)", p, bearing, d, q, back, back-d)
 	}
@@ -217,7 +250,7 @@ func checkAlong(ls orb.LineString, d float64, nz *noiser) error {
 		return fmt.Errorf("harness: empty line is outside the domain (documented panic)")
 	}
 	nz.call()
-	got, _ := geo.PointAtDistanceAlongLine(ls.Clone(), d)
+	got, _ := geo.PointAtDistanceAlongLine(append(orb.LineString(nil), ls...), d)
 	last := ls[len(ls)-1]
 	total := 0.0
 	var want vec
@@ -334,12 +367,13 @@ func ringMeasures(r orb.Ring, mode string, nz *noiser) (signed, area float64, er
 
 func checkBox(b orb.Bound, extra [4][]float64, rot int, rev, closed bool, mode string, nz *noiser) error {
 	want := boxClosedForm(b)
-	tol := relBox * want
+	verts := boxRing(b, extra)
+	// relative 1e-6 plus the ring rounding allowance (which alone applies to zero-width/height boxes)
+	tol := relBox*want + ringTol(verts)
 	nz.call()
 	if a := geo.Area(b); !(math.Abs(a-want) <= tol) {
 		return fmt.Errorf("Area(%v) = %v, closed form %v (relative %g)", b, a, want, (a-want)/want)
 	}
-	verts := boxRing(b, extra)
 	r := spelling(verts, rot%len(verts), rev, closed)
 	s, a, err := ringMeasures(r, mode, nz)
 	if err != nil {
@@ -430,6 +464,9 @@ func ringVerts(r orb.Ring) []orb.Point { return []orb.Point(r) }
 func modelArea(g orb.Geometry) (float64, float64) {
 	switch g := g.(type) {
 	case orb.Ring:
+		if len(g) < 3 {
+			return 0, 0 // fewer than three points enclose nothing
+		}
 		return math.Abs(geo.SignedArea(g)), ringTol(ringVerts(g))
 	case orb.Polygon:
 		if len(g) == 0 {
@@ -437,8 +474,8 @@ func modelArea(g orb.Geometry) (float64, float64) {
 		}
 		a, tol := 0.0, 0.0
 		for i, r := range g {
-			if len(r) == 0 {
-				continue
+			if len(r) < 3 {
+				continue // fewer than three points enclose nothing
 			}
 			ra := math.Abs(geo.SignedArea(r))
 			if i == 0 {
@@ -467,7 +504,7 @@ func modelArea(g orb.Geometry) (float64, float64) {
 		return a, tol
 	case orb.Bound:
 		w := boxClosedForm(g)
-		return w, relBox * math.Abs(w)
+		return w, relBox*math.Abs(w) + ringTol(boxRing(g, [4][]float64{}))
 	}
 	return 0, 0
 }
@@ -519,10 +556,18 @@ func checkGeom(g orb.Geometry, mode string, nz *noiser) error {
 		return fmt.Errorf("Area = %v (layout %s), composed from its rings (outer - holes, summed) %v (diff %g, tolerance %g)", a, mode, want, a-want, tol)
 	}
 	var se, sh float64
+	var segErr error
 	segments(g, func(a, b orb.Point) {
-		se += geo.Distance(a, b)
-		sh += geo.DistanceHaversine(a, b)
+		e, h, err := segmentSanity(a, b)
+		if err != nil && segErr == nil {
+			segErr = err
+		}
+		se += e
+		sh += h
 	})
+	if segErr != nil {
+		return segErr
+	}
 	for _, m := range []struct {
 		name string
 		f    func(orb.Geometry) float64
